@@ -122,6 +122,8 @@ def core_variants():
     add('r_CF_bol', 'r', PLAIN + ('bol',), ['fast'], note='D1')
     # features one at a time
     add('nr_array', 'nr', NOREJ, ['array', 'yylineno'])
+    add('c99_array', 'c99', NOREJ, ['array'])
+    add('go_array', 'go', NOREJ, ['array'])
     add('nr_array_rej', 'nr', FULL, ['array'])
     add('r_array', 'r', NOREJ, ['array'])
     add('nr_7bit', 'nr', NOREJ, ['7bit'])
@@ -351,6 +353,17 @@ def core(art):
     if art.dir not in _core_cache:
         _core_cache[art.dir] = instantiate(art, core_variants(), 'core')
     return _core_cache[art.dir]
+
+_modes = {}
+def mode_symbols(v):
+    """m4 mode symbols flex listed in the header comments of the generated file (`/* M4_MODE_X */`, `/* M4_X = v */`):
+    the mode vector the scanner was instantiated with (e.g. M4_MODE_USES_REJECT also follows from variable trailing context)"""
+    if v.src is None: return frozenset()
+    if v.src not in _modes:
+        import re
+        head = open(v.src, errors='replace').read(20000)
+        _modes[v.src] = frozenset(re.findall(r'/\* ((?:M4_|YY_)[A-Za-z0-9_.<>]+)(?: = [^*]*)? \*/', head))
+    return _modes[v.src]
 
 _mod_cache = {}
 def module(v):
